@@ -356,6 +356,19 @@ func (f *TermFactory) Bin(op Op, a, b *Term) *Term {
 		if b.IsConst() {
 			return f.Bin(OAdd, a, f.Const(w, -b.c))
 		}
+		// (x + c) - x = c ; (x + c1) - (x + c2) = c1 - c2
+		{
+			ba, ca, bb, cb := a, uint64(0), b, uint64(0)
+			if a.op == OAdd && a.b.IsConst() {
+				ba, ca = a.a, a.b.c
+			}
+			if b.op == OAdd && b.b.IsConst() {
+				bb, cb = b.a, b.b.c
+			}
+			if ba == bb {
+				return f.Const(w, ca-cb)
+			}
+		}
 	case OMul:
 		if a.IsConst() {
 			a, b = b, a
